@@ -133,11 +133,10 @@ fn verification_and_metadata_roundtrip() {
 }
 
 #[kani::proof]
-fn deserialize_any_bytes_then_serialize() {
+fn deserialize_any_bytes_cas_records() {
     let b: [u8; 48] = kani::any();
     let j: usize = kani::any();
     kani::assume(j < 48);
-
     match CASChunkSequenceHeader::deserialize(&mut &b[..]) {
         Ok(x) => {
             let mut o: Vec<u8> = Vec::new();
@@ -152,6 +151,19 @@ fn deserialize_any_bytes_then_serialize() {
         },
         Err(_) => assert!(false, "CASChunkSequenceEntry::deserialize fails on 48 bytes"),
     }
+    // short input: an error, not a panic
+    let n: usize = kani::any();
+    kani::assume(n < 48);
+    assert!(CASChunkSequenceEntry::deserialize(&mut &b[..n]).is_err(), "CASChunkSequenceEntry::deserialize on < 48 bytes is Err");
+    assert!(CASChunkSequenceHeader::deserialize(&mut &b[..n]).is_err(), "CASChunkSequenceHeader::deserialize on < 48 bytes is Err");
+    kani::cover!(j == 47 && b[47] == 0xEE && n == 47, "last byte, one-short input");
+}
+
+#[kani::proof]
+fn deserialize_any_bytes_file_records() {
+    let b: [u8; 48] = kani::any();
+    let j: usize = kani::any();
+    kani::assume(j < 48);
     match FileDataSequenceHeader::deserialize(&mut &b[..]) {
         Ok(x) => {
             let mut o: Vec<u8> = Vec::new();
@@ -166,12 +178,9 @@ fn deserialize_any_bytes_then_serialize() {
         },
         Err(_) => assert!(false, "FileDataSequenceEntry::deserialize fails on 48 bytes"),
     }
-    // short input: an error, not a panic
     let n: usize = kani::any();
     kani::assume(n < 48);
     assert!(FileDataSequenceEntry::deserialize(&mut &b[..n]).is_err(), "FileDataSequenceEntry::deserialize on < 48 bytes is Err");
-    assert!(CASChunkSequenceEntry::deserialize(&mut &b[..n]).is_err(), "CASChunkSequenceEntry::deserialize on < 48 bytes is Err");
     assert!(FileVerificationEntry::deserialize(&mut &b[..n]).is_err(), "FileVerificationEntry::deserialize on < 48 bytes is Err");
-    kani::cover!(j == 47 && b[47] == 0xEE && n == 47, "last byte, one-short input");
-    kani::cover!(n == 0, "empty input");
+    kani::cover!(j == 47 && b[47] == 0xEE && n == 0, "last byte, empty short input");
 }
